@@ -364,7 +364,7 @@ pub fn run(ctx: &Ctx) -> PropResult {
     let out = run_workloads(ctx, wls);
     let mut meta = PropMeta::default();
     meta.rule = format!(
-        "starts: every day of display years −8…8, −405…−400, 1896–1904, 1996–2004, 2019–2025 and the first/last 600 representable days ({} days{}) x N = 0..=48 exhaustively x 4 ops on Date, + per start 12 special N (u32::MAX−0..2, 2^31±1, the N landing on the first/last representable month ±2, <5000, uniform u32); a DateTime case with random time of day and offset for 1/7 of those; random starts over the whole range (month ends favoured); random API walks in which the month/year steps are judged. Oracle: total months on astronomical years in i64, euclidean split, day clamped to the target month. For a DateTime carrying an offset both the UTC-date and the local-date reading are accepted (the statement does not choose). Non-trivial = start day-of-month ≥ 29, era crossing, N ≥ 2^31 or unrepresentable target (Date); every DateTime case. Distinct by input hash. Fresh-thread workload: every case is the first shift a brand-new thread performs (starts and targets dense at the era boundary). Offset::Local twins as in C04 for the four month/year operations.",
+        "starts: every day of display years −8…8, −405…−400, 1896–1904, 1996–2004, 2019–2025 and the first/last 600 representable days ({} days{}) x N = 0..=48 exhaustively x 4 ops on Date, + per start 12 special N (u32::MAX−0..2, 2^31±1, the N landing on the first/last representable month ±2, <5000, uniform u32); a DateTime case with random time of day and offset for 1/7 of those; random starts over the whole range (month ends favoured); random API walks in which the month/year steps are judged. Oracle: total months on astronomical years in i64, euclidean split, day clamped to the target month. For a DateTime carrying an offset both the UTC-date and the local-date reading are accepted (the statement does not choose). Non-trivial = start day-of-month ≥ 29, era crossing, N ≥ 2^31 or unrepresentable target (Date); every DateTime case. Distinct by input hash. Fresh-thread workload: every case is the first shift a brand-new thread performs (starts and targets dense at the era boundary). Offset::Local twins as in C04 for the four month/year operations. Receivers whose local reading lies beyond a range end: shifts by 0..3 months/years towards the inside must not panic (UTC-date or local-date reading accepted). Offsets of a day or more in one DateTime case of ten. Date API walks. Sibling call sequences (incl. counts 2^27…2^30 and failing shifts in between).",
         days.len(),
         if quick { ", quick: days with dom < 28 thinned 6x" } else { "" }
     );
